@@ -291,6 +291,19 @@ func checkEvo(c evoCase) error {
 		if err := duo.Unmarshal(b, dm.Interface()); err != nil {
 			return fmt.Errorf("Unmarshal(DiscardUnknown) failed: %v", err)
 		}
+		// before anything reads dm (a lazily held submessage is still raw bytes): what Marshal writes
+		// must already be free of the discarded records
+		raw, err := proto.MarshalOptions{AllowPartial: true}.Marshal(dm.Interface())
+		if err != nil {
+			return fmt.Errorf("Marshal after Unmarshal(DiscardUnknown) failed: %v", err)
+		}
+		probe := mcase.New(c.Type, true)
+		if err := (proto.UnmarshalOptions{AllowPartial: true}).Unmarshal(raw, probe.Interface()); err != nil {
+			return fmt.Errorf("output of a message decoded with DiscardUnknown does not decode: %v", err)
+		}
+		if err := noUnknown(probe); err != nil {
+			return fmt.Errorf("DiscardUnknown (dynamic=%v lazy=%v): Marshal of the untouched message still writes discarded records: %v", dyn, c.Lazy, err)
+		}
 		if err := noUnknown(dm); err != nil {
 			return fmt.Errorf("DiscardUnknown (dynamic=%v lazy=%v): %v", dyn, c.Lazy, err)
 		}
